@@ -188,6 +188,10 @@ def gen_layered_world(rng, i, two_layer=None, want_files=True, small=False, allo
         else:
             nlayers = rng.pick([1, 2, 3, 3, 3, 4, 4, 6])
             read["opts"]["parsing_dirs"] = [R + "/%s" % d for d in rng.sample(["usr/lib/p", "run/p", "etc/p", "opt/p", "v", "e", "l3"], nlayers)]
+            if rng.chance(0.06):
+                # one more layer that cannot hold anything: a component of its path is a regular file
+                read["opts"]["parsing_dirs"].insert(rng.randrange(nlayers + 1), R + "/afile/sub")
+                read["bogus_layer"] = True
             read["project"] = rng.pick(["proj", None])
             read["usr_subdir"] = rng.pick(["/usr/lib", None])
             if read["project"] is not None and rng.chance(0.15):
@@ -232,8 +236,8 @@ def gen_layered_world(rng, i, two_layer=None, want_files=True, small=False, allo
     dropin_only = (not read["ep"].startswith("readDirs")) and not read.get("name")
     for li, layer in enumerate(layers):
         st = MAIN_STATES[(pat >> (2 * li)) & 3] if li < 3 else rng.pick(MAIN_STATES)
-        if dropin_only or not layer.startswith("$ROOT"):
-            st = "absent"     # no main file is defined in this mode / layer outside the sandbox
+        if dropin_only or not layer.startswith("$ROOT") or layer.endswith("/afile/sub"):
+            st = "absent"     # no main file is defined in this mode / layer outside the sandbox / below a regular file
         p = norm("%s/%s%s" % (layer, eff_name, suf))
         if st == "regular":
             fid += 1
@@ -242,6 +246,8 @@ def gen_layered_world(rng, i, two_layer=None, want_files=True, small=False, allo
             nodes.append({"p": p, "t": "f", "entries": []})
         elif st == "devnull":
             nodes.append({"p": p, "t": "l", "to": "/dev/null"})
+    if read.get("bogus_layer"):
+        nodes.append({"p": R + "/afile", "t": "f", "entries": []})
     # a main file that exists for lstat() but cannot be opened (dangling symbolic link) in the highest layer
     # that has no main file: it is no file (5.3), lower layers must be used as if it were absent
     if not dropin_only and rng.chance(0.06):
@@ -255,7 +261,7 @@ def gen_layered_world(rng, i, two_layer=None, want_files=True, small=False, allo
     pool = list(NAME_POOL)
     for li, layer in enumerate(layers):
         used_here = set()
-        if not layer.startswith("$ROOT"):
+        if not layer.startswith("$ROOT") or layer.endswith("/afile/sub"):
             continue
         for pf in pfs_eff:
             d = norm("%s/%s%s" % (layer, eff_name, pf))
